@@ -246,7 +246,7 @@ def rule_r2(prog, res):
                     isinstance(st, ast.If) and is_kind(st.test) and
                     always_raises(st.body) for st in t.node.body)
                 for r in rets:
-                    g = guards_at(r, stop=t.node)
+                    g = flatten_guards(guards_at(r, stop=t.node))
                     kind = neg_kind
                     todo = list(g)
                     while todo:
